@@ -152,7 +152,7 @@ pub fn dispatch(op: &str, toks: &[&str]) -> Option<String> {
                     })
                 })
                 .collect();
-            Some(match watchdog(90, handles) {
+            Some(match watchdog(25, handles) {
                 Ok(res) => {
                     let idv: Vec<std::thread::ThreadId> = ids.lock().unwrap().iter().map(|x| x.unwrap()).collect();
                     format!("{}{}", res.join(" %% "), lock_log(&idv))
@@ -190,7 +190,7 @@ pub fn dispatch(op: &str, toks: &[&str]) -> Option<String> {
                     })
                 })
                 .collect();
-            Some(match watchdog(90, handles) {
+            Some(match watchdog(25, handles) {
                 Ok(res) => {
                     let idv: Vec<std::thread::ThreadId> = ids.lock().unwrap().iter().map(|x| x.unwrap()).collect();
                     let bad: Vec<String> = res.into_iter().flatten().collect();
